@@ -564,6 +564,24 @@ func main() {
 	})
 	total(st)
 
+	// zero values: a point or a bound whose coordinates are all zero is the Go zero value of its type, and still a
+	// geometry like any other (not "no geometry")
+	nz := math.Copysign(0, -1)
+	zeros := []orb.Geometry{
+		orb.Point{}, orb.Bound{}, orb.Point{nz, nz}, orb.Bound{Min: orb.Point{nz, nz}, Max: orb.Point{nz, nz}}, orb.Bound{Min: orb.Point{0, 0}, Max: orb.Point{0, 1}},
+		orb.MultiPoint{{}}, orb.LineString{{}, {}}, orb.Ring{{}, {}, {}, {}}, orb.Polygon{{{}, {}, {}, {}}}, orb.MultiLineString{{{}, {}}}, orb.MultiPolygon{{{{}, {}, {}, {}}}},
+		orb.Collection{orb.Bound{}}, orb.Collection{orb.Point{}}, orb.Collection{orb.Point{1, 2}, orb.Bound{}, orb.Point{}}, orb.Collection{orb.Collection{orb.Bound{}}, orb.Point{3, 4}},
+	}
+	st = r.Explore("zero-values", fmt.Sprintf("%d geometries whose coordinates are all zero (the zero point and the zero bound alone, as collection members, nested; negative zeros; zero lines, rings, polygons) x {LE,BE} x {absent, 4326}: every encoder / decode path / destination", len(zeros)), mc.Opts{MaxDev: -1, NewLocal: newLocal}, func(c *mc.Ctx) {
+		l := c.Local().(*loc)
+		g := zeros[c.Choose(len(zeros))]
+		order := orders[c.Choose(2)]
+		srid := []int{0, 4326}[c.Choose(2)]
+		l.calls += int64(checkAll(c, g, srid, order, true))
+		c.NonTrivial()
+	})
+	total(st)
+
 	// streaming decoder under every fragmentation with at most `frag` one-byte reads
 	frag := ev.Pick(r, 2, 3)
 	reps := []orb.Geometry{
